@@ -572,6 +572,7 @@ def run_schema(schema: dict, rng, exercise: int = 40) -> SchemaRun:
             ok, back = sr._call(f"{cls.__name__}.{from_n}", getattr(cls, from_n), wire)
             if ok and to_n == "to_dict":
                 check_identity(sr, d, inst, back)
+                check_factory_identity(sr, inst, back)
             if ok:
                 check_roundtrip(sr, d, inst, back, f"{cls.__name__}.{from_n}", wire)
             if to_n == "to_dict" and isinstance(wire, dict):
@@ -615,6 +616,7 @@ def run_schema(schema: dict, rng, exercise: int = 40) -> SchemaRun:
             ok2, back = sr._call(f"{kind}.decode", dec.decode, wire)
             if ok2:
                 check_identity(sr, d, val, back)
+                check_factory_identity(sr, val, back)
                 check_roundtrip(sr, d, val, back, f"{kind}.decode", wire)
         for j in JUNK:
             if kind in ("basic",):
@@ -795,6 +797,32 @@ def check_identity(sr: SchemaRun, d: dict, inst, back):
                            winner=_winner(d, holder, fn, type(y)))
 
 
+def check_factory_identity(sr: SchemaRun, inst, back):
+    """DefaultDict[K, V] with V a class: the factory of the decoded defaultdict is the very class V of the annotation
+    (unpack.py pastes a type reference as the factory; since d8ae0ee through get_type_name_identifier)"""
+    import collections
+    import dataclasses
+    import typing
+    if not dataclasses.is_dataclass(back) or type(back) is not type(inst):
+        return
+    try:
+        hints = typing.get_type_hints(type(inst), include_extras=False)
+    except Exception:
+        return
+    for fn, t in hints.items():
+        if typing.get_origin(t) is not collections.defaultdict:
+            continue
+        args = typing.get_args(t)
+        if len(args) != 2 or not isinstance(args[1], type):
+            continue
+        y = getattr(back, fn, None)
+        if isinstance(y, collections.defaultdict) and y.default_factory is not args[1]:
+            got = y.default_factory
+            sr.finding("wrong-class-bound", f"field {type(inst).__name__}.{fn}: annotation DefaultDict[.., {args[1]!r}] (id {id(args[1]):#x}) but the factory of the "
+                       f"decoded defaultdict is {got!r} (id {id(got):#x})", entry=f"{type(inst).__name__}.from_dict", field=fn, ann=args[1], got=got,
+                       winner="unknown")
+
+
 def check_roundtrip(sr: SchemaRun, d: dict, inst, back, entry: str, wire):
     """for the classes a schema lists in ROUNDTRIP (plain field types, no user code, no lossy option):
     decode(encode(x)) == x, and of the same class - a silently swallowed error shows up here"""
@@ -926,9 +954,7 @@ def classify(f: dict, d: dict, module: str, src: str = "") -> dict:
         return {"kind": "unresolved-name", "cause": cause, "name": name if cause != "class-module-not-importable" else "<module root>"}
     if kind == "own-SyntaxError":
         cause = "other"
-        if "collections.defaultdict(" in name and "<locals>" in name.split("collections.defaultdict(", 1)[1].split(",", 1)[0]:
-            cause = "defaultdict-factory-local"
-        elif name.lstrip().startswith("CodeBuilder(") and "<locals>" in name:
+        if name.lstrip().startswith("CodeBuilder(") and "<locals>" in name:
             cause = "local-class-in-lazy-stub"
 
         return {"kind": "generated-syntax-error", "cause": cause}
